@@ -29,26 +29,6 @@ Definition chk_oned (tbl : list filter) (c : Z * list Z * list Z * list Z) : boo
   let '(i, A, syn, ana) := c in
   zlist_eqb (oned_synthesis (f_stages (flt tbl i)) A) syn && zlist_eqb (oned_analysis (f_stages (flt tbl i)) A) ana.
 
-(* forward case: state, component, picture; observed padded picture, coefficients,
-   idwt of them, and the picture after padding removal *)
-Definition chk_fwd (tbl : list filter)
-  (c : (Z * Z) * (Z * Z * Z * Z * Z * Z) * Z * arr * arr * coeffs * arr * arr) : bool :=
-  let '((wi, wiho), (lw, lh, cw, ch, d, dh), comp, pic, padded, cf, syn, out) := c in
-  let st := mkst lw lh cw ch d dh in
-  let fv := flt tbl wi in let fh := flt tbl wiho in
-  let k := comp_of comp in
-  arr_eqb (dwt_pad_addition st k pic) padded
-  && coeffs_eqb (dwt fv fh d dh padded) cf
-  && arr_eqb (idwt fv fh d dh cf) syn
-  && arr_eqb (idwt_pad_removal st k syn) out
-  && arr_eqb (round_trip fv fh st k pic) out.
-
-(* inverse case on independent coefficients: observed idwt output and the dwt of that *)
-Definition chk_inv (tbl : list filter) (c : (Z * Z) * (Z * Z) * coeffs * arr * coeffs) : bool :=
-  let '((wi, wiho), (d, dh), cf, syn, cf2) := c in
-  let fv := flt tbl wi in let fh := flt tbl wiho in
-  arr_eqb (idwt fv fh d dh cf) syn && coeffs_eqb (dwt fv fh d dh syn) cf2.
-
 (* shapes of the coefficient data against the generated slice geometry *)
 Definition shape_ok (a : arr) (h w : Z) : bool :=
   (Z.of_nat (length a) =? h) && forallb (fun r => Z.of_nat (length r) =? w) a.
@@ -60,3 +40,28 @@ Definition coeffs_shapes_ok (st : pystate) (k : pystr) (cf : coeffs) : bool :=
   && shapes_from sh (c_ho cf) 1
   && shapes_from (fun '(a1, a2, a3) level => sh a1 level && sh a2 level && sh a3 level) (c_vh cf) (st_dwt_depth_ho st + 1)
   && (Z.of_nat (length (c_ho cf)) =? st_dwt_depth_ho st) && (Z.of_nat (length (c_vh cf)) =? st_dwt_depth st).
+
+(* forward case: state, component, picture; observed padded picture, coefficients,
+   idwt of them (None = identical to the padded picture), and the picture after padding
+   removal (None = identical to the input picture).  Also: the implementation's sub-band
+   shapes are the ones the generated slice geometry gives. *)
+Definition chk_fwd (tbl : list filter)
+  (c : (Z * Z) * (Z * Z * Z * Z * Z * Z) * Z * arr * arr * coeffs * option arr * option arr) : bool :=
+  let '((wi, wiho), (lw, lh, cw, ch, d, dh), comp, pic, padded, cf, syn_o, out_o) := c in
+  let st := mkst lw lh cw ch d dh in
+  let fv := flt tbl wi in let fh := flt tbl wiho in
+  let k := comp_of comp in
+  let syn := match syn_o with Some a => a | None => padded end in
+  let out := match out_o with Some a => a | None => pic end in
+  arr_eqb (dwt_pad_addition st k pic) padded
+  && coeffs_eqb (dwt fv fh d dh padded) cf
+  && arr_eqb (idwt fv fh d dh cf) syn
+  && arr_eqb (idwt_pad_removal st k syn) out
+  && arr_eqb (round_trip fv fh st k pic) out
+  && coeffs_shapes_ok st k cf.
+
+(* inverse case on independent coefficients: observed idwt output and the dwt of that *)
+Definition chk_inv (tbl : list filter) (c : (Z * Z) * (Z * Z) * coeffs * arr * coeffs) : bool :=
+  let '((wi, wiho), (d, dh), cf, syn, cf2) := c in
+  let fv := flt tbl wi in let fh := flt tbl wiho in
+  arr_eqb (idwt fv fh d dh cf) syn && coeffs_eqb (dwt fv fh d dh syn) cf2.
